@@ -317,6 +317,7 @@ def systems(quick):
     cen14 = cen + [[(0.1 + 0.23 * k) % 1, (0.2 + 0.31 * k) % 1, (0.85 - 0.17 * k) % 1] for k in range(8)]
     add("mix14/guessed", 14, [A, B] + [(i,) for i in range(5, 14)], [(0, 1), (1, 2), (3, 4)], geom, cen14, False,
         anchors="guess")
+    out[-1]["face6_quick"] = True          # quick tier: the 6 face images instead of all 26 for this 14-atom system
     return out + relabelled_systems(quick) + multi_anchor_systems(quick)
 
 
@@ -388,7 +389,7 @@ def scatters(sysv, full):
     rows = [np.zeros((n, 3), np.int64)]
     groups = [[i] for i in range(n)]
     light = bool(sysv.get("light"))
-    images = FACE6 if (light and not full) else NONZERO
+    images = FACE6 if ((light or sysv.get("face6_quick")) and not full) else NONZERO
     if light:
         groups = [[i] for m in sysv["mols"][:2] for i in m] + [list(m) for m in sysv["mols"][:2]]
     else:
